@@ -14,9 +14,10 @@ structure Cfg where
   bobWCGuards : Bool     -- K5: s1 ≢ 0 (mod q), e ≠ 0
   modParityFirst : Bool  -- K7: N odd and positive before Jacobi
   facNCapPositive : Bool -- NCap > 0
+  modCanonicalRoot : Bool -- of the fourth roots `x`, `N − x` only the smaller is sent and accepted
 
-def cur : Cfg := ⟨true, true, true, true, true⟩
-def old : Cfg := ⟨false, false, false, false, false⟩
+def cur : Cfg := ⟨true, true, true, true, true, true⟩
+def old : Cfg := ⟨false, false, false, false, false, false⟩
 
 /-- use of a nil `*big.Int` as an operand: crash -/
 def nilPanic {α} (tag : String) : Option α → Outcome α := Outcome.ofOption tag
@@ -140,8 +141,12 @@ def modYs (H : HashFn) (sess : Bytes) (w n : Int) : Nat → List Nat → Outcome
     let e := (sha512_256iTaggedWith H sess (w :: n :: acc.map Int.ofNat)).getD 0
     modYs H sess w n k (acc ++ [(((e : Int) % n).toNat)])
 
-/-- `NewProof(Session, N, P, Q, rand)` with the sampled non-residue `W` given -/
-def modProve (H : HashFn) (sess : Bytes) (n p q w : Nat) : Outcome (Nat × List Nat × Nat × Nat × List Nat) := do
+/-- the representative of `{x, N − x}` that the prover sends: the smaller one -/
+def modCanonRoot (n x : Nat) : Nat := if n - x < x then n - x else x
+
+/-- `NewProof(Session, N, P, Q, rand)` with the sampled non-residue `W` given, before the choice of the
+representative of `±x` (the whole prover of the tree before that repair) -/
+def modProveRaw (H : HashFn) (sess : Bytes) (n p q w : Nat) : Outcome (Nat × List Nat × Nat × Nat × List Nat) := do
   let phi := (p - 1) * (q - 1)
   let ys ← modYs H sess w n modIterations []
   let invN ← nilPanic "nil-inv" (modInverse n phi)
@@ -163,6 +168,15 @@ def modProve (H : HashFn) (sess : Bytes) (n p q w : Nat) : Outcome (Nat × List 
   let aBits := (List.range modIterations).foldl (fun acc i => acc + (xs.getD i (0, 0, 0)).2.1 * 2 ^ i) (2 ^ modIterations)
   let bBits := (List.range modIterations).foldl (fun acc i => acc + (xs.getD i (0, 0, 0)).2.2 * 2 ^ i) (2 ^ modIterations)
   .ok (w, xs.map (·.1), aBits, bBits, zs)
+
+/-- `NewProof(Session, N, P, Q, rand)`: every root is replaced by the smaller of `x`, `N − x` -/
+def modProveCfg (cfg : Cfg) (H : HashFn) (sess : Bytes) (n p q w : Nat) :
+    Outcome (Nat × List Nat × Nat × Nat × List Nat) := do
+  let pf ← modProveRaw H sess n p q w
+  .ok (pf.1, if cfg.modCanonicalRoot then pf.2.1.map (modCanonRoot n) else pf.2.1, pf.2.2)
+
+def modProve (H : HashFn) (sess : Bytes) (n p q w : Nat) : Outcome (Nat × List Nat × Nat × Nat × List Nat) :=
+  modProveCfg cur H sess n p q w
 
 /-- deterministic Miller–Rabin for `ProbablyPrime` (bases 2..37 plus trial division) -/
 def millerRabinWitness (n d r a : Nat) : Bool :=
@@ -197,6 +211,7 @@ def modVerify (cfg : Cfg) (H : HashFn) (sess : Bytes) (w : Int) (xs : List Int) 
   if Nat.gcd w.toNat n.toNat != 1 then .ok false else
   if !(zs.all fun z => 0 < z && z < n) then .ok false else
   if !(xs.all fun x => 0 < x && x < n) then .ok false else
+  if cfg.modCanonicalRoot && !(xs.all fun x => 2 * x ≤ n) then .ok false else
   if bitLen a.natAbs != modIterations + 1 then .ok false else
   if bitLen b.natAbs != modIterations + 1 then .ok false else
   let ys ← modYs H sess w n modIterations []
